@@ -18,10 +18,10 @@ EXPLANATION = ("ContactTracker::{HalfSpaceSphere,SphereSphere,HalfSpaceEllipsoid
                "brick vertex and no other vertex is lower); a common symbolic rigid motion of both surfaces leaves the tracker's result "
                "(expressed in surface 1) unchanged and moves the CollisionDetectionAlgorithm's ground-frame point/normal by that motion; "
                "sphere/sphere with the surfaces swapped gives the same depth and contact point and the negated normal.")
-BOUNDS = ("translations of surface 2, sizes and the cutoff free (5-7 real variables) plus one pose angle at a time (quick) or two (thorough); "
+BOUNDS = ("translations of surface 2, sizes and the cutoff free (5-7 real variables) plus one pose angle at a time (one angle per pair/API in quick, four angles in thorough); "
           "the other pose angles and the translation of surface 1 and of the common motion pinned at exact Pythagorean/rational base points "
           "(2 quick / 6 thorough); both outcomes (contact / no contact) and the brick's lowest-vertex octants reached by path flipping "
-          "(4-8 paths quick, 16 thorough); cutoff >= 0, sizes > 0, |translation| <= 8 and non-coincident sphere centres are hypotheses; "
+          "(4-8 paths quick, 8-12 thorough); cutoff >= 0, sizes > 0, |translation| <= 8 and non-coincident sphere centres are hypotheses; "
           "half-space/ellipsoid: the sign clauses (decision vs distance, depth >= centre height) with all pose angles pinned "
           "(translations and cutoff free), the equalities also with one angle free (CollisionDetectionAlgorithm API); CollisionDetectionAlgorithm half-space/"
           "ellipsoid contact path: checked although the curvature computation concretises a value (complex root finder), the asserted "
@@ -41,7 +41,7 @@ ANGLES = ["A_ax", "A_ay", "A_az", "B_ax", "B_ay", "B_az", "M_ax", "M_ay", "M_az"
 def instances(tier, seed):
     out = []
     # one free pose angle per instance (an angle changed by a flip must be free in every free set of the instance)
-    angs = {"quick": ["A_ay", "B_az"], "thorough": ["A_ax", "A_ay", "A_az", "B_ax", "B_az", "M_ay"]}[tier]
+    angs = {"quick": ["A_ay", "B_az"], "thorough": ["A_ax", "A_az", "B_ay", "M_ay"]}[tier]
     k = 0
     for pair in PAIRS:
         for api in ("tracker", "cda"):
@@ -56,7 +56,7 @@ def instances(tier, seed):
                 mine = angs
             k += 1
             for a in mine:
-                d = dict(name="%s:%s/%s" % (pair, api, a), args=[pair, api], paths=(4 if pair != "hs_brick" else 8) if tier == "quick" else 16,
+                d = dict(name="%s:%s/%s" % (pair, api, a), args=[pair, api], paths=(4 if pair != "hs_brick" else 8) if tier == "quick" else (8 if pair != "hs_brick" else 12),
                          pair=pair, api=api, tier=tier, angle=a)
                 if pair == "hs_ellipsoid" and api == "tracker":
                     # large rotation-dependent branch literals of findParaboloidAtPointWithNormal in the path condition: with a free
@@ -69,9 +69,9 @@ def instances(tier, seed):
                 out.append(d)
     # half-space/ellipsoid tracker: findParaboloidAtPointWithNormal adds large rotation-dependent branch literals to the path
     # condition; with a free angle z3 answers unknown on the sign clauses, so those are asserted in an instance without a free angle
-    out.append(dict(name="hs_ellipsoid:tracker/lin", args=["hs_ellipsoid", "tracker"], paths=4 if tier == "quick" else 16, pair="hs_ellipsoid",
+    out.append(dict(name="hs_ellipsoid:tracker/lin", args=["hs_ellipsoid", "tracker"], paths=4 if tier == "quick" else 8, pair="hs_ellipsoid",
                     api="tracker", tier=tier, angle=None))
-    out.append(dict(name="hs_ellipsoid:cda/lin", args=["hs_ellipsoid", "cda"], paths=4 if tier == "quick" else 16, pair="hs_ellipsoid",
+    out.append(dict(name="hs_ellipsoid:cda/lin", args=["hs_ellipsoid", "cda"], paths=4 if tier == "quick" else 8, pair="hs_ellipsoid",
                     api="cda", tier=tier, angle=None, allow_events=True))
     for i in out:
         i.setdefault("twin_timeout_ms", 10000)     # twins are model searches; an undecided twin is only a lost vacuity witness
